@@ -1077,10 +1077,11 @@ func min_max(args py.Tuple, kwargs py.StringDict, name string) (py.Object, error
 	var cmp func(a py.Object, b py.Object) (py.Object, error)
 	if name == "min" {
 		format = "|$OO:min"
-		cmp = py.Le
+		// a strict comparison keeps the first of equal items
+		cmp = py.Lt
 	} else if name == "max" {
 		format = "|$OO:max"
-		cmp = py.Ge
+		cmp = py.Gt
 	}
 	var defaultValue py.Object
 	var keyFunc py.Object
